@@ -1,6 +1,6 @@
 ---- MODULE InvRoot_Gen ----
 (* Case export (spec -> code).  TLC enumerates the FULL case lattice of C01 and exports the *)
-(* slice  Hash(case) % GEN_MOD = GEN_SLICE  (both from the environment, so the harness can *)
+(* slice  Hash(case) % GEN_MOD = GEN_SLICE  (both from the environment, so the harness can  *)
 (* widen the slice with the tier and move it with VERIF_SEED).  For every case the module's *)
 (* own Mask action is taken and the line carries what the spec derives for it: the rows     *)
 (* that carry data / receive ridge, the branch the call must take, the constants of the     *)
@@ -27,11 +27,15 @@ Hash(c) == c.n * 7 + (c.ps + 1) * 13 + (IF c.fill = "junk" THEN 31 ELSE 0) + Sum
 
 Full == Lattice({1, 2, 3, 5, 8, 16}, {0, 2, 4, 6, 8}, {-6, 0, 6}, 1..8, {6, 12}, BOOLEAN,
                 Methods, {"f64"})
+\* sizes 1..3 have few spectra and would hardly occur in a slice: they are sampled 8x denser
+\* and the LOBPCG variant (a quarter of the lattice, figure honest by construction) 4x sparser
+ModFor(c, mod) == IF c.n <= 3 THEN (IF mod \div 8 = 0 THEN 1 ELSE mod \div 8)
+                  ELSE IF c.method = "lobpcg" THEN mod * 4 ELSE mod
+InSlice(c, mod) == Hash(c) % ModFor(c, mod) = GEN_SLICE % ModFor(c, mod)
 GEN_Cases == LET F == Full
-             IN {c \in F : Hash(c) % GEN_MOD = GEN_SLICE % GEN_MOD}
+             IN {c \in F : InSlice(c, GEN_MOD)}
                 \cup (IF GEN_MOD32 = 0 THEN {}
-                      ELSE {[c EXCEPT !.dt = "f32"] :
-                            c \in {x \in F : Hash(x) % GEN_MOD32 = GEN_SLICE % GEN_MOD32}})
+                      ELSE {[c EXCEPT !.dt = "f32"] : c \in {x \in F : InSlice(x, GEN_MOD32)}})
 
 SetToSeq(S) == [i \in 1..Cardinality(S) |-> CHOOSE x \in S : Cardinality({y \in S : y < x}) = i - 1]
 
